@@ -137,6 +137,7 @@ func runC03(r *Run) {
 	// the status over every shipped transport (topo.go)
 	topoSweep(r, "status")
 	c03EOFShapedFailure(r)
+	c03LateFailure(r)
 	// a call abandoned with unread envelopes, then the next call: its outcome is its own handler's (c05b.go)
 	if r.Want("backlog") {
 		c05Backlog(r)
@@ -534,6 +535,69 @@ func c03EOFShapedFailure(r *Run) {
 				r.Violate("eofshaped.success", "ops", "the handler failed, but the caller was told the stream completed successfully", in, fmt.Sprint(term), "an error status")
 			}
 			rig.Close()
+		}
+	}
+}
+
+// c03LateFailure: a unary handler that overruns the deadline the REQUEST carries (a grpc-timeout of
+// 30 ms set by a foreign peer; the peer itself keeps waiting) and then fails with a plain error or with
+// a status — Unknown included — that has a message and details. The status the handler finished with is
+// the status the caller observes: code, message, details.
+func c03LateFailure(r *Run) {
+	if !r.Want("latefailure") {
+		return
+	}
+	sc := NewScript(0)
+	sc.Out = make(chan *Rpc, 64)
+	impl := &Impl{}
+	var cur error
+	impl.SetUnary(func(ctx context.Context, req []byte) ([]byte, error) {
+		time.Sleep(60 * time.Millisecond) // does not watch its context; the request's 30 ms are over
+		return nil, cur
+	})
+	srv := goat.NewServer("srv")
+	srv.RegisterService(&echoDesc, impl)
+	served := make(chan error, 1)
+	go func() { served <- srv.Serve(context.Background(), sc) }()
+	defer func() {
+		srv.Stop()
+		sc.FailRead(io.ErrClosedPipe)
+		within(hangTimeout, func() { <-served })
+	}()
+	det, _ := anypb.New(&wrapperspb.StringValue{Value: "d"})
+	stU := status.New(codes.Unknown, "backend said no")
+	stUd, _ := stU.WithDetails(&wrapperspb.StringValue{Value: "d"})
+	_ = det
+	cases := []struct {
+		name string
+		err  error
+		code codes.Code
+		msg  string
+		nDet int
+	}{
+		{"status Unknown with message and details", stUd.Err(), codes.Unknown, "backend said no", 1},
+		{"plain error", errors.New("disk on fire"), codes.Unknown, "disk on fire", 0},
+		{"status NotFound", status.Error(codes.NotFound, "nf"), codes.NotFound, "nf", 0},
+	}
+	body, _ := goat_marshal(&wrapperspb.BytesValue{Value: []byte("x")})
+	for i, c := range cases {
+		in := map[string]any{"handler_returns": c.name, "request_timeout": "30m", "handler_takes": "60ms"}
+		r.Progress("latefailure", in)
+		cur = c.err
+		sc.In <- &Rpc{Id: uint64(i + 1), Header: &goatorepo.RequestHeader{Method: mUnary, Source: "peer", Destination: "srv",
+			Headers: []*goatorepo.KeyValue{{Key: "grpc-timeout", Value: "30m"}}}, Body: &goatorepo.Body{Data: body}}
+		select {
+		case rep := <-sc.Out:
+			st := rep.GetStatus()
+			r.Eval("latefailure/"+c.name, true)
+			r.Count("c03.latefailure")
+			if codes.Code(st.GetCode()) != c.code || st.GetMessage() != c.msg || len(st.GetDetails()) != c.nDet {
+				r.Violate("latefailure.status", "ops", "the reply does not carry the status the handler finished with (the handler had overrun the request's deadline)", in,
+					fmt.Sprintf("code=%d message=%q details=%d", st.GetCode(), st.GetMessage(), len(st.GetDetails())), fmt.Sprintf("code=%d message=%q details=%d", c.code, c.msg, c.nDet))
+			}
+		case <-time.After(hangTimeout):
+			r.Violate("latefailure.none", "ops", "no reply", in, goroutineDump(), nil)
+			return
 		}
 	}
 }
